@@ -206,7 +206,7 @@ def do_replay(run: Run, griffe, path: str):
     msg = B.check_reference(case)
     if msg:
         die("C07: the stored case's reference disagrees with CPython: " + msg)
-    for name, src in B.render(case).items():
+    for name, src in B.render(case, guarded=(agent == "inspect")).items():
         print(f"# ---- {name}.py\n{src}")
     if agent == "inspect":
         inspect_cases(run, [case], children=1)
